@@ -168,6 +168,8 @@ def sort_scalar(rng, fam):
         return rng.choice([0, 1, 2, 3, -1, 1.0, 2.5, -1.5, 3.0, 10])
     if fam == 'nan':
         return rng.choice([0, 1, 2.5, {'$nan': rng.randrange(50)}, {'$nan': 'np'}, 3])
+    if fam == 'inf':      # (beyond the statement's list for sort: since cmp ranks -inf < finite < +inf < NaN, python's native order and cmp agree on them)
+        return rng.choice([0, 1, 2.5, {'$inf': -1}, {'$inf': 1}, -3, {'$nan': rng.randrange(50)}, 7])
     if fam == 'str':
         return rng.choice(['x', 'y', '', 'ab', 'b', 'abc', 'X'])
     if fam == 'dt':
@@ -182,7 +184,7 @@ def gen_sort_case(rng):
     if rng.random() < 0.02:
         n = rng.choice([130, 260])
     width = rng.choice([0, 0, 1, 2, 3])
-    fams = [rng.choice(['num', 'nan', 'str', 'dt', 'none', 'mixed', 'mixed']) for _ in range(max(width, 1))]
+    fams = [rng.choice(['num', 'nan', 'str', 'dt', 'none', 'mixed', 'mixed', 'inf']) for _ in range(max(width, 1))]
     if width == 0:
         xs = [sort_scalar(rng, fams[0]) for _ in range(n)]
     else:
